@@ -1,7 +1,7 @@
 (* Props/C06.v — property C06: union, intersection, difference, complement are exact set operations;
    the normal forms (three-way diagrams, DNF and back) never change membership.
-   Statements only; proofs in Proofs/Bdd.v, Proofs/SemType.v. *)
-From Beff Require Import Model.SemSpec Proofs.Bdd Proofs.SemType.
+   Statements only; proofs in Proofs/Bdd.v, Proofs/SemType.v, Proofs/SemOps.v. *)
+From Beff Require Import Model.SemSpec Proofs.Bdd Proofs.SemType Proofs.SemOps.
 
 (* ---- decision diagrams: for every truth assignment of the atoms (i.e. for every value, whatever lists and
         mappings mean), every diagram — no bound on atoms, size or shape ---- *)
@@ -49,6 +49,38 @@ Proof.
   - destruct (sub_vec_diff_lit eqb He is_sub leb lit Hs v1 v2 H1 H2) as [v [E [_ H]]]. eauto.
 Qed.
 
+(* ---- whole semantic types (SemTypeOps::union / intersect / diff / complement): the bit sets, the merge of the two
+        tag-sorted vectors of proper subtypes (SubTypePairIterator) and the per-tag operations together compute the set
+        operation on what the types denote — for every valid point, i.e. every value whatever lists and mappings mean
+        (any valuation rho of the atoms), and all well-formed types whose literal sets are literals (wf2: tags strictly
+        increasing, no tag both in `all` and in the vector, non-empty literal lists; formats and void/undefined are
+        outside, as the property states) ---- *)
+Theorem C06_semtype_union :
+  forall t1 t2 t pt, wf2 t1 = true -> wf2 t2 = true -> valid_point pt = true -> sem_union t1 t2 = Ok t ->
+                     mem t pt = mem t1 pt || mem t2 pt.
+Proof. exact sem_union_mem. Qed.
+Theorem C06_semtype_intersect :
+  forall t1 t2 t pt, wf2 t1 = true -> wf2 t2 = true -> valid_point pt = true -> sem_intersect t1 t2 = Ok t ->
+                     mem t pt = mem t1 pt && mem t2 pt.
+Proof. exact sem_intersect_mem. Qed.
+Theorem C06_semtype_diff :
+  forall t1 t2 t pt, wf2 t1 = true -> wf2 t2 = true -> valid_point pt = true -> sem_diff t1 t2 = Ok t ->
+                     mem t pt = mem t1 pt && negb (mem t2 pt).
+Proof. exact sem_diff_mem. Qed.
+Theorem C06_semtype_complement :
+  forall t c pt, wf2 t = true -> valid_point pt = true -> sem_complement t = Ok c -> mem c pt = negb (mem t pt).
+Proof. exact sem_complement_mem. Qed.
+
+(* non-vacuity of the SemType theorems: two well-formed types with literal sets and structural parts *)
+Definition st1 : semtype := mkSem (stag_code TgNull) [PNumber true [NLit 1; NLit 2]; PString false [STpl [TplConst "a"]]; PMapping (from_atom (mkAtom AMapping 0))].
+Definition st2 : semtype := mkSem (stag_code TgNumber) [PBoolean true; PString true [STpl [TplConst "a"]; STpl [TplConst "b"]]; PMapping (from_atom (mkAtom AMapping 1))].
+Example C06_semtype_nonvacuous :
+  wf2 st1 = true /\ wf2 st2 = true /\
+  (exists d, sem_diff st1 st2 = Ok d /\ mem d (PtStr "c") = true /\ mem d (PtStr "b") = false /\ mem d (PtNum 1) = false /\ mem d (PtUnit TgNull) = true) /\
+  (exists u, sem_union st1 st2 = Ok u /\ mem u (PtBool true) = true /\ mem u (PtBool false) = false) /\
+  (exists i, sem_intersect st1 st2 = Ok i /\ mem i (PtNum 2) = true /\ mem i (PtNum 3) = false).
+Proof. repeat split; try (eexists; repeat split); vm_compute; reflexivity. Qed.
+
 (* non-vacuity: the operations succeed on non-trivial diagrams with ample fuel *)
 Definition a0 := mkAtom AMapping 0.
 Definition a1 := mkAtom AMapping 1.
@@ -64,3 +96,7 @@ Print Assumptions C06_diff.
 Print Assumptions C06_complement.
 Print Assumptions C06_dnf_to_bdd.
 Print Assumptions C06_literal_sets.
+Print Assumptions C06_semtype_union.
+Print Assumptions C06_semtype_intersect.
+Print Assumptions C06_semtype_diff.
+Print Assumptions C06_semtype_complement.
